@@ -23,6 +23,7 @@ Stmt   =
   ["include_file", base, uri, kwargs]    <% base.include_file('uri', kwargs) %>
   ["get_ns", base, uri, member, args]    ${base.get_namespace('uri').member(args)}
   ["get_tpl", base, uri]                 ${base.get_template('uri').render_unicode()}
+  ["get_ns2", base, uri1, uri2, member]  ${base.get_namespace('uri1').get_namespace('uri2').member()}
   ["block", name, [Stmt]]                <%block name="..">..</%block>
   ["nscall", ns, member, {k: literal}, [Stmt]]   <%ns:member k="literal">..</%ns:member>
   ["callerbody"]                         ${caller.body()}
@@ -108,6 +109,8 @@ def p_stmt(s):
         return "<%% %s.include_file(%r%s) %%>" % (s[1], s[2], (", " + s[3]) if s[3] else "")
     if k == "get_ns":
         return "${%s.get_namespace(%r).%s(%s)}" % (s[1], s[2], s[3], s[4])
+    if k == "get_ns2":
+        return "${%s.get_namespace(%r).get_namespace(%r).%s()}" % (s[1], s[2], s[3], s[4])
     if k == "get_tpl":
         return "${%s.get_template(%r).render_unicode()}" % (s[1], s[2])
     if k == "block":
